@@ -110,7 +110,7 @@ PROPS = {
     nontrivial=dict(stat=lambda s: s[1] >= 1),
     rule='4-16 threads searching one shared router; every answer judged by W; dump before = dump after; non-trivial = matched search',
     explanation='Send/Sync is decided by rustc (harness/src/main.rs: assert_send_sync::<Router<u32>>() - the harness does not build otherwise). Coq part, deliberately small: C18_no_hidden_state over the inventory regenerated from src/ every run (no static items, interior mutability, unsafe, ambient state; Constraint: Send + Sync) and C18_schedule_independent on the functional model. Runtime: 4-16 threads searching a shared router for up to 60 rounds incl. deep routes, every answer judged by W, dump before = dump after. Thread interleavings themselves are runtime behaviour the model cannot exhibit.'),
- 'C19': dict(level='proof', scenarios=[('hist', 4800, 120000)],
+ 'C19': dict(level='proof', scenarios=[('hist', 4800, 120000), ('conflict', 1800, 45000)],
     primary=['RenderField', 'SpecInsert', 'SpecDelete', 'SpecConstraint'], secondary=['RenderInsert', 'RenderDelete', 'RenderConstraint', 'OpsInsert', 'OpsDelete', 'OpsConstraint'],
     nontrivial=dict(stat=lambda s: False, line=lambda l: (l.startswith('insert ') and l.split()[4] not in ('ok',)) or (l.startswith('delete ') and l.split()[3] != 'ok') or (l.startswith('constraint ') and ' dup ' in l)),
     rule='payload of every error vs the registry specification; rendered message must contain every payload string; non-trivial = failing call',
